@@ -311,3 +311,78 @@ Definition m_fast_path (first_last_equal : bool) : bool := first_last_equal.    
 Definition m_join_key_and_payload_index : Z * Z := (0, 1).            (* join_groupbys: group on x[0], concatenate g[1] *)
 Definition m_get_data_names_first : bool := true.                      (* get_data: [chrom_name_node, run_length_node] *)
 Definition is_nil {A} (l : list A) : bool := match l with [] => true | _ => false end.
+
+(* ================= the pull machine of computation_graph.py / zip =================
+   A ComputationNode evaluates its argument nodes for buffer i in LIST ORDER (`[a._get_buffer(i) … for a in self._args]`),
+   a StreamNode answers with `next(stream)`, `get_iter` counts i = 0, 1, … and stops at the first StopIteration that any
+   argument raises (exceptions pass through); a nested ComputationNode asks its own arguments in turn, so the leaves are
+   asked in the flattened order.  Python's `zip` does the same with its iterables.  Every leaf is a trace.
+   pull_round asks every source once; lockstep repeats rounds (fuel = one more than the rows that can arrive). *)
+Definition E_FUEL := 9.
+Section PullMachine.
+Variable U : Type.
+Fixpoint pull_round (srcs : list (trace U)) : res (option (list U * list (trace U))) :=
+  match srcs with
+  | [] => Done (Some ([], []))
+  | (l, e) :: rest =>
+      match l with
+      | [] => match e with Stop => Done None | Raise c => Err c end
+      | a :: l' => match pull_round rest with
+                   | Done (Some (row, rest')) => Done (Some (a :: row, (l', e) :: rest'))
+                   | Done None => Done None
+                   | Err c => Err c
+                   end
+      end
+  end.
+Fixpoint lockstep (fuel : nat) (srcs : list (trace U)) : res (list (list U)) :=
+  match fuel with
+  | O => Err E_FUEL
+  | S f => match pull_round srcs with
+           | Err c => Err c
+           | Done None => Done []
+           | Done (Some (row, srcs')) => match lockstep f srcs' with Done r => Done (row :: r) | Err c => Err c end
+           end
+  end.
+End PullMachine.
+
+(* the leaves of the genome route and of forbes/jaccard's zip, and the order in which each public call asks them
+   (regenerated from the source by translate/gen_c12.py and bridged in Bridge/C12.v) *)
+Inductive item := IName (n : bname) | ITable (t : ids) | ISize (z : Z) | IRef (t : ids).
+Definition SRC_NAMES := 0.   (* StreamNode(iter(chrom_sizes.keys()))   — one label per included contig *)
+Definition SRC_DATA := 1.    (* the synchronised per-contig stream (iter_chromosomes / SynchedStream) *)
+Definition SRC_SIZES := 2.   (* StreamNode(iter(chrom_sizes.values())) / ms.lengths *)
+Definition SRC_FIRST := 3.   (* the first stream of forbes/jaccard's zip *)
+Definition m_pull_order_get_data : list Z := [SRC_NAMES; SRC_DATA; SRC_SIZES].  (* get_data: [name node, f(data node, size node)] *)
+Definition m_pull_order_reduce : list Z := [SRC_DATA; SRC_SIZES].               (* np.sum(f(data node, size node)) *)
+Definition m_pull_order_field : list Z := [SRC_DATA].                           (* getattr(data node, 'start') *)
+Definition m_pull_order_zip : list Z := [SRC_FIRST; SRC_DATA; SRC_SIZES].       (* get_contingency_table(ms.a, ms.b, ms.lengths) *)
+Definition m_cg_args_in_list_order : bool := true.
+Definition m_cg_get_iter_stops_on_stopiteration : bool := true.
+Definition m_cg_streamnode_pulls_first_eagerly : bool := true.
+Definition m_streamable_zips_in_arg_order : bool := true.
+Definition source_of (names : list bname) (data first : trace ids) (sizes : list Z) (k : Z) : trace item :=
+  if k =? SRC_NAMES then (map IName names, Stop)
+  else if k =? SRC_DATA then (map ITable (fst data), snd data)
+  else if k =? SRC_SIZES then (map ISize sizes, Stop)
+  else (map IRef (fst first), snd first).
+Definition run_machine (order : list Z) (names : list bname) (data first : trace ids) (sizes : list Z) : res (list (list item)) :=
+  lockstep item (S (length sizes)) (map (source_of names data first sizes) order).
+Fixpoint row_name (r : list item) : option bname :=
+  match r with [] => None | IName n :: _ => Some n | _ :: r' => row_name r' end.
+Fixpoint row_table (r : list item) : ids :=
+  match r with [] => [] | ITable t :: _ => t | _ :: r' => row_table r' end.
+Definition decode_rows (rows : list (list item)) : list (bname * Z) :=
+  flat_map (fun r => match row_name r with Some l => map (pair l) (row_table r) | None => [] end) rows.
+(* the three observations of the genome route and the zip observation, computed by the machine *)
+Definition machine_rows (names : list bname) (sizes : list Z) (t : trace ids) : res (list (bname * Z)) :=
+  stream_guard t (res_map decode_rows (run_machine m_pull_order_get_data names t ([], Stop) sizes)).
+Definition machine_flat (sizes : list Z) (t : trace ids) : res (list Z) :=
+  stream_guard t (res_map (fun rows => concat (map row_table rows)) (run_machine m_pull_order_reduce [] t ([], Stop) sizes)).
+Definition machine_zip_second (first : trace ids) (sizes : list Z) (t : trace ids) : res (list ids) :=
+  res_map (map row_table) (run_machine m_pull_order_zip [] t first sizes).
+(* Spec-side helper: the rows a correct assignment shows under its contig labels *)
+Definition labelled (G : list bname) (asg : list ids) : list (bname * Z) :=
+  flat_map (fun '(l, i) => map (pair l) i) (combine G asg).
+Definition machine_field (t : trace ids) : res (list Z) :=      (* compute((gi.start, gi.stop)): one leaf *)
+  stream_guard t (res_map (fun rows => concat (map row_table rows))
+                          (lockstep item (S (length (fst t))) (map (source_of [] t ([], Stop) []) m_pull_order_field))).
